@@ -494,6 +494,22 @@ class Scenario:
             s.cvec("g_" + name, prm.values)
             s.op("%s=vnacal_make_vector_parameter $%s @freq %d @g_%s" % (
                 name, vc, self.F, name))
+        if prm.kind == "vector" and getattr(self, "prequery", False) and \
+                self.rng.random() < 0.6:
+            # the application looks at the standard before calibrating with
+            # it (plots the kit on a finer grid): the handle has been
+            # evaluated high in the band, off its knots, before the solve
+            # starts at the bottom
+            pf = getattr(prm, "pfreqs", None)
+            if pf is None:
+                pf = self.freqs
+            if len(pf) >= 2:
+                for _ in range(int(self.rng.integers(1, 4))):
+                    k = int(self.rng.integers(max(0, len(pf) - 3), len(pf) - 1))
+                    fq = float(pf[k] + self.rng.uniform(0.2, 0.8) *
+                               (pf[k + 1] - pf[k]))
+                    s.op("vnacal_get_parameter_value $%s $%s %s" % (
+                        vc, name, hx(fq)))
         prm.var = "$" + name
         return prm.var
 
